@@ -19,7 +19,7 @@ for p in props:
         "thorough_cmd": "bin/vcheck %s --tier thorough" % pid,
         "evidence_file": "evidence/%s.json" % pid,
         "replay_cmd_template": "bin/vcheck --replay {path}",
-        "engine": "xrt",
+        "engine": "xrt" + ("+native-sanitizers" if pid in vplan.NATIVE or pid == "C15" else ""),
         "level_claimed": {"category": "exploration", "text": meta["level_text"], "design_ref": meta["design_ref"]},
         "level_note": meta["level_note"],
         "technique": meta["technique"],
@@ -39,12 +39,14 @@ m = {
     "engines": [
         {"name": "xrt", "path": "xrt/", "serves_properties": sorted(vplan.PLANS.keys()),
          "kind_free_text": "own sanitizer runtime implementing the TSan compiler ABI: seeded baton scheduler over real pthreads (random walk, PCT, burst, plain-access preemption, solo/freeze), vector-clock happens-before race detector, view-based stale-read / spurious-CAS injection, never-reusing heap with freed/red-zone shadow"},
+        {"name": "native-sanitizers", "path": "xrt/native.cpp", "serves_properties": sorted(set(vplan.NATIVE.keys()) | {"C15"}),
+         "kind_free_text": "the same scenario sources built with stock g++ sanitizers: ASan+UBSan (-fno-sanitize-recover=all) and ThreadSanitizer on the library's TSan build variant; real parallel threads, histories stamped from one global counter, monitors under a mutex that TSan ignores; a sanitizer report kills the job and is reported as asan-report / tsan-report; plus the native marked_ptr bit-model program (C15)"},
         {"name": "monitors", "path": "monitors/", "serves_properties": sorted(vplan.PLANS.keys()),
          "kind_free_text": "WGL linearizability checker with sequential models, element-ownership registry, lifetime registry, ledgers"},
     ],
     "checks": checks,
     "not_applicable": na,
-    "notes": "See DESIGN.md. known_findings.txt lists fixed defects (fix: commits in /repo) and open findings.",
+    "notes": "See DESIGN.md (section 0 = as built). known_findings.txt lists the repaired defects (fix: commits in /repo) and the open findings; seeded/ holds the seeded changes used to validate the checks (bin/eval_seeded_all.sh).",
 }
 json.dump(m, open(os.path.join(VERIF, "MANIFEST.json"), "w"), indent=1)
 print("MANIFEST.json: %d checks, %d not_applicable" % (len(checks), len(na)))
